@@ -108,4 +108,10 @@ theorem count_guard (P : List Nat → Nat) (h : Hasher) (t₀ : Option T) (src c
 example : decodeE (encodeE ⟨[.s "urn:p", .i 1], .int (-5), "http://www.w3.org/2001/XMLSchema#integer"⟩ ++ [.bool true]) =
     .ok (⟨[.s "urn:p", .i 1], .int (-5), "http://www.w3.org/2001/XMLSchema#integer"⟩, [.bool true]) := entry_roundtrip _ _
 
+/-- the boundary of the count guard: a merklizer **without entries** (a document that says nothing) round-trips like any
+    other - zero is a valid count, the restored tree is the empty tree -/
+theorem empty_merklizer_roundtrip (P : List Nat → Nat) (h : Hasher) (src comp : String) (root : Nat) (safe : Bool) :
+    decodeM P h none (encodeM ⟨src, comp, root, [], safe⟩) = .ok ⟨⟨src, comp, root, [], safe⟩, .empty⟩ :=
+  mz_roundtrip P h ⟨src, comp, root, [], safe⟩ [] .empty (by simp [kvOf]) (by simp [addAll])
+
 end Gsp.Props.C13
